@@ -124,26 +124,12 @@ func c10Server(c *caseCtx) {
 			os.Remove(f)
 		}
 	}()
-	// sequential baseline from the same process, one request at a time
 	type base struct {
 		status int
 		body   string
 	}
-	baseline := make([]base, N)
-	for i, b := range bodies {
-		r := s.post(b)
-		c.count("evaluations", 1)
-		if r.err != nil {
-			c.violate("no-answer", fmt.Sprintf("sequential baseline request got no answer: %v", r.err), M{"request": gs[i].M, "service_output": s.logTail(800)})
-			return
-		}
-		baseline[i] = base{r.status, string(bytes.TrimSpace(r.body))}
-		if r.status != 200 {
-			baseline[i].body = normaliseError(bytes.TrimSpace(r.body))
-		}
-	}
-	s.truncateLog()
-	// concurrent phase: every corpus entry is sent 4 times; in even rounds the copies are adjacent (identical requests in flight together)
+	// concurrent phase on the COLD process (lazily initialised shared state is hit by simultaneous first requests);
+	// every corpus entry is sent 4 times; in even rounds the copies are adjacent (identical requests in flight together)
 	var jobs []int
 	for i := 0; i < N; i++ {
 		for k := 0; k < 4; k++ {
@@ -167,11 +153,20 @@ func c10Server(c *caseCtx) {
 		err    string
 	}
 	var bads []bad
+	type got struct {
+		idx    int
+		status int
+		body   string
+		err    string
+	}
+	var gots []got
 	var wg sync.WaitGroup
+	startGate := make(chan struct{})
 	for cl := 0; cl < cfg.clients; cl++ {
 		wg.Add(1)
 		go func(cl int) {
 			defer wg.Done()
+			<-startGate
 			for i := range ch {
 				r := s.post(bodies[i])
 				body := string(bytes.TrimSpace(r.body))
@@ -181,15 +176,40 @@ func c10Server(c *caseCtx) {
 				mu.Lock()
 				obs = append(obs, c10Obs{i, r.call, r.ret, cl})
 				if r.err != nil {
-					bads = append(bads, bad{i, 0, "", r.err.Error()})
-				} else if r.status != baseline[i].status || body != baseline[i].body {
-					bads = append(bads, bad{i, r.status, body, ""})
+					gots = append(gots, got{i, 0, "", r.err.Error()})
+				} else {
+					gots = append(gots, got{i, r.status, body, ""})
 				}
 				mu.Unlock()
 			}
 		}(cl)
 	}
+	close(startGate)
 	wg.Wait()
+	// sequential baseline from the same process, one request at a time (the service is deterministic, so taking it
+	// after the concurrent phase is as good as before - and leaves the process cold for the concurrent phase)
+	baseline := make([]base, N)
+	if s.alive() {
+		for i, b := range bodies {
+			r := s.post(b)
+			c.count("evaluations", 1)
+			if r.err != nil {
+				c.violate("no-answer", fmt.Sprintf("sequential baseline request got no answer: %v", r.err), M{"request": gs[i].M, "service_output": s.logTail(800)})
+				return
+			}
+			baseline[i] = base{r.status, string(bytes.TrimSpace(r.body))}
+			if r.status != 200 {
+				baseline[i].body = normaliseError(bytes.TrimSpace(r.body))
+			}
+		}
+		for _, g := range gots {
+			if g.err != "" {
+				bads = append(bads, bad{g.idx, 0, "", g.err})
+			} else if g.status != baseline[g.idx].status || g.body != baseline[g.idx].body {
+				bads = append(bads, bad{g.idx, g.status, g.body, ""})
+			}
+		}
+	}
 	c.count("evaluations", len(jobs))
 	c.count("concurrent_requests", len(jobs))
 	alive := s.alive()
@@ -247,10 +267,6 @@ func c10InProc(c *caseCtx) {
 		N, reps = 300, 12
 	}
 	gs, bodies := c10Corpus(c.rng, N)
-	baseline := make([]decision, N)
-	for i := range bodies {
-		baseline[i] = decide(bodies[i], false)
-	}
 	prefix := filepath.Join(*fWorkDir, "race-harness")
 	before, _ := raceReports(fmt.Sprintf("%s.%d", prefix, os.Getpid()))
 	var mu sync.Mutex
@@ -258,11 +274,18 @@ func c10InProc(c *caseCtx) {
 	var badReq M
 	var wg sync.WaitGroup
 	total := 0
+	type rec struct {
+		idx int
+		d   decision
+	}
+	var recs []rec
+	gate := make(chan struct{})
 	for g := 0; g < G; g++ {
 		wg.Add(1)
 		seed := c.rng.Int63()
 		go func(seed int64) {
 			defer wg.Done()
+			<-gate
 			r := rand.New(rand.NewSource(seed))
 			for k := 0; k < reps*N/G+1; k++ {
 				i := r.Intn(N)
@@ -279,17 +302,26 @@ func c10InProc(c *caseCtx) {
 					continue
 				}
 				d := decideDM(dm, tr)
+				d.Trace, d.Choice, d.View, d.dm = nil, nil, nil, nil
 				mu.Lock()
 				total++
-				if firstBad == "" && (d.OK != baseline[i].OK || (d.OK && !bytes.Equal(d.JSON, baseline[i].JSON))) {
-					firstBad = fmt.Sprintf("decision computed concurrently differs from the sequential one (accepted %v vs %v)", d.OK, baseline[i].OK)
-					badReq = gs[i].M
-				}
+				recs = append(recs, rec{i, d})
 				mu.Unlock()
 			}
 		}(seed)
 	}
+	close(gate) // all goroutines start together on registries nobody has used yet in this (fresh) process
 	wg.Wait()
+	baseline := make([]decision, N)
+	for i := range bodies {
+		baseline[i] = decide(bodies[i], false)
+	}
+	for _, rc := range recs {
+		if firstBad == "" && (rc.d.OK != baseline[rc.idx].OK || (rc.d.OK && !bytes.Equal(rc.d.JSON, baseline[rc.idx].JSON))) {
+			firstBad = fmt.Sprintf("decision computed concurrently differs from the sequential one (accepted %v vs %v)", rc.d.OK, baseline[rc.idx].OK)
+			badReq = gs[rc.idx].M
+		}
+	}
 	c.count("evaluations", total+N)
 	c.count("inproc_concurrent_decisions", total)
 	if firstBad != "" {
@@ -316,8 +348,9 @@ func init() {
 	register(&propDef{
 		id: "C10",
 		rule: "stream server: the real service built with -race, GOMAXPROCS in {1,4,16}, 2..64 concurrent clients; a corpus over all methods x biases (incl. ~10% requests that " +
-			"panic with a validation error) is first answered one at a time (sequential baseline from the same process), then every entry is sent 4 times concurrently " +
-			"(copies adjacent in even rounds = identical requests in flight together): every response must equal the baseline byte for byte (rejections: status + body with " +
+			"panic with a validation error) is sent 4 times concurrently " +
+			"(copies adjacent in even rounds = identical requests in flight together) - the concurrent phase runs FIRST, on the cold process, the baseline is taken " +
+			"afterwards from the same process: every response must equal the baseline byte for byte (rejections: status + body with " +
 			"bracketed name lists sorted), the process must stay alive, and the race detector log (halt_on_error=0, log_path) must contain no DATA RACE block. Stream inProc: " +
 			"race-instrumented harness, 16 goroutines deciding on the shared registries through decorators that yield / sleep 0-200us at every stage boundary. Evidence " +
 			"counts overlapping request pairs (from call/return timestamps), max in flight, identical-request overlaps. distinct = distinct (methodA, methodB) pairs observed overlapping.",
